@@ -9,6 +9,7 @@
 Exit codes of a check: 0 property held on everything explored, 1 violation(s)
 (VIOLATION lines printed), 2 machinery failure.
 """
+import hashlib
 import json
 import math
 import os
@@ -16,7 +17,6 @@ import re
 import subprocess
 import sys
 import time
-import hashlib
 from fractions import Fraction
 from concurrent.futures import ProcessPoolExecutor, as_completed
 
@@ -25,6 +25,10 @@ SPEC = os.path.join(VERIF, "spec")
 WORK = os.path.join(VERIF, "work")
 REPLAYS = os.path.join(VERIF, "replays")
 EVID = os.path.join(VERIF, "evidence")
+if os.environ.get("VERIF_REPO"):      # development runs against a scratch worktree never touch the real evidence / replays
+    _tag = hashlib.sha1(os.environ["VERIF_REPO"].encode()).hexdigest()[:8]
+    REPLAYS = os.path.join(VERIF, "work", "mut_" + _tag, "replays")
+    EVID = os.path.join(VERIF, "work", "mut_" + _tag, "evidence")
 KNOWN = os.path.join(VERIF, "KNOWN_FINDINGS.txt")
 JAR = "/opt/veriftools/tla/tla2tools.jar:/opt/veriftools/tla/CommunityModules-deps.jar"
 NCPU = int(os.environ.get("VERIF_JOBS", "16"))
@@ -181,6 +185,35 @@ class MC(object):
         self.extra = extra
 
 
+class Apa(MC):
+    """A symbolic (Apalache) run: `init` /\\ `length` steps of Next imply `inv`.  length=0: init => inv;
+    length=1 with an inductive init: the induction step.  No state counts (the result is a proof over unbounded data)."""
+    def __init__(self, module, init, inv, length, note="", timeout=1500):
+        MC.__init__(self, module, "%s:%s=>%s@%d" % (module, init, inv, length), workers=1, note=note)
+        self.init, self.inv, self.length, self.timeout = init, inv, length, timeout
+
+
+def run_apalache(apa, workdir):
+    res = TLCResult()
+    os.makedirs(workdir, exist_ok=True)
+    t0 = time.time()
+    cmd = ["apalache-mc", "check", "--init=" + apa.init, "--inv=" + apa.inv, "--length=%d" % apa.length,
+           "--out-dir=" + os.path.join(workdir, "out"), os.path.join(SPEC, apa.module + ".tla")]
+    try:
+        p = subprocess.run(cmd, cwd=workdir, stdout=subprocess.PIPE, stderr=subprocess.STDOUT, timeout=apa.timeout,
+                           env=dict(os.environ, JVM_ARGS="-Xmx3g"))
+        res.out = p.stdout.decode("utf-8", "replace")
+        res.rc = p.returncode
+        if "The outcome is: NoError" in res.out and p.returncode == 0:
+            res.ok = True
+        else:
+            res.error = "apalache rc=%s\n%s" % (p.returncode, "\n".join(res.out.splitlines()[-12:]))
+    except subprocess.TimeoutExpired:
+        res.error = "apalache timeout after %ss" % apa.timeout
+    res.wall = time.time() - t0
+    return res
+
+
 class Shard(object):
     """A conformance trace: gen(**args) yields events (dicts) obtained by
     calling the real library; the trace spec (module, cfg) judges them."""
@@ -206,10 +239,15 @@ def _write_events(path, events, limit=None, nontrivial=None):
     return n, len(keys)
 
 
+def _rundir(pid):
+    """scratch directory of THIS invocation (two concurrent runs of one check must not share trace files)"""
+    return os.environ.get("VERIF_RUNDIR") or os.path.join(WORK, pid)
+
+
 def _run_shard(pid, shard, limit=None, tag="", nontrivial=None):
     """Executed in a worker process: drive the implementation, then TLC."""
     sys.path.insert(0, os.path.join(VERIF, "harness"))
-    wd = os.path.join(WORK, pid, shard.name + tag)
+    wd = os.path.join(_rundir(pid), shard.name + tag)
     os.makedirs(wd, exist_ok=True)
     path = os.path.join(wd, "trace.ndjson")
     t0 = time.time()
@@ -312,7 +350,10 @@ def run_check(pid, plan, tier, seed, replay=None):
     from concurrent.futures import ThreadPoolExecutor
     t0 = time.time()
     P = plan(tier, seed)
-    os.makedirs(os.path.join(WORK, pid), exist_ok=True)
+    os.environ["VERIF_RUNDIR"] = os.path.join(WORK, pid, "%s_%d" % (tier, os.getpid()))
+    os.makedirs(_rundir(pid), exist_ok=True)
+    import atexit, shutil
+    atexit.register(shutil.rmtree, _rundir(pid), True)
     machinery_errors = []
     states = transitions = 0
     mc_info = []
@@ -326,7 +367,9 @@ def run_check(pid, plan, tier, seed, replay=None):
     results = []
 
     def _one_mc(mc, idx):
-        wd = os.path.join(WORK, pid, "mc_%d_%s" % (idx, mc.cfg.replace(".cfg", "")))
+        if isinstance(mc, Apa):
+            return mc, run_apalache(mc, os.path.join(_rundir(pid), "apa_%d" % idx))
+        wd = os.path.join(_rundir(pid), "mc_%d_%s" % (idx, mc.cfg.replace(".cfg", "")))
         return mc, run_tlc(mc.module, mc.cfg, wd, env=mc.env, workers=mc.workers, heap=mc.heap,
                            timeout=P.get("mc_timeout", 3000), extra=mc.extra)
 
